@@ -196,6 +196,10 @@ def table_lookup(table, fname, site, config=None):
             ok = ok and site['span'].get('expn') == m['expn']
         if 'snip_contains' in m:
             ok = ok and m['snip_contains'] in site['span']['snip']
+        for c in m.get('not_consts', []):
+            ok = ok and ('const', c) not in toks
+        for f in m.get('not_fields', []):
+            ok = ok and ('field', f) not in toks
         for c in m.get('not_calls', []):
             ok = ok and not any(tk[0] == 'call' and tk[1].endswith(c) for tk in toks)
         if ok:
